@@ -214,6 +214,12 @@ func Main() int {
 		return replay(ctx, p, rp)
 	}
 	p.Run(ctx)
+	if col.Res.Internal != "" {
+		// a monitor found its own oracle inconsistent: no verdict
+		col.Res.Write(out)
+		fmt.Fprintln(os.Stderr, "INTERNAL:", col.Res.Internal)
+		return 5
+	}
 	runWitnesses(ctx, p)
 	if ctx.Build == "cover" {
 		// reduced-scale reach measurement: the cell floors apply to the main run only
